@@ -40,7 +40,7 @@ Section Safety.
     Inv ct s -> nth_error (threads s) i = Some t -> t_ph t = Done -> exists o, t_obs t = Some o.
   Proof.
     intros [_ [_ [HT _]]] Hi Hp. destruct (HT i t Hi) as [[_ [_ [_ H]]] _]. rewrite Hp in H.
-    destruct (t_obs t) as [o|]; [eauto|]. destruct H; congruence.
+    destruct (t_obs t) as [o|]; [eauto|]. destruct H as [_ [H _]]; congruence.
   Qed.
 
   Lemma inv_pub s c m :
@@ -309,6 +309,163 @@ Section Safety.
     intros Hc [[H _]|[i [d [t [H _]]]]]; simpl in H; [|discriminate].
     rewrite getc_init in H by auto. discriminate.
   Qed.
+  (* ------------------------------------------------------------ at least once *)
+  (* a class whose metadata is visible has been entered *)
+  Lemma pub_started s c :
+    Inv ct s -> c < length ct -> pub (getc c (classes s)) <> None -> started c s.
+  Proof.
+    intros HI Hc Hp. pose proof HI as [_ [_ [HT HK]]].
+    destruct (lock s) as [[i d]|] eqn:El.
+    - destruct HK as [_ [t [Hi [_ Hcl]]]]. destruct (HT i t Hi) as [[[Hle _] _] _].
+      destruct (Hcl c Hc) as [A [B [C D]]].
+      destruct (lt_eq_lt_dec c (t_cur t)) as [[L|E]|L].
+      + left. apply quiet_pub_complete; auto. apply A; auto.
+      + subst c. specialize (B eq_refl). unfold cur_ok in B.
+        destruct (t_ph t) eqn:Hp2;
+          try (left; apply quiet_pub_complete; auto; fail); try (left; exact B; fail).
+        * unfold untouched in B. rewrite B in Hp. simpl in Hp. congruence.
+        * unfold untouched in B. rewrite B in Hp. simpl in Hp. congruence.
+        * destruct B as [_ B]. rewrite B in Hp. simpl in Hp. congruence.
+        * destruct B as [_ [_ B]]. rewrite B in Hp. simpl in Hp. congruence.
+        * destruct B as [_ B]. rewrite B in Hp. simpl in Hp. congruence.
+        * right. exists i, d, t. split; [auto|split; [auto|]]. right. rewrite Hp2. auto.
+        * right. exists i, d, t. split; [auto|split; [auto|]]. right. rewrite Hp2. auto.
+      + destruct (le_lt_dec c (t_tgt t)).
+        * exfalso. assert (Hu := C (conj L l)). unfold untouched in Hu. rewrite Hu in Hp. simpl in Hp. congruence.
+        * left. apply quiet_pub_complete; auto.
+    - left. apply quiet_pub_complete; auto.
+  Qed.
+
+  Lemma ret_inprog_back t m c : inprog c (ret t m) -> t_cur t < c <= t_tgt t.
+  Proof.
+    unfold ret. destruct (Nat.ltb_spec (t_cur t) (t_tgt t)).
+    - unfold inprog; simpl. intros [Hr|[Hr _]]; lia.
+    - destruct (t_inst t); unfold inprog; simpl; intros [Hr|[_ Hr]]; try lia; discriminate.
+  Qed.
+
+  Lemma thread_back s i t cl' l' t' e c :
+    Inv ct s -> nth_error (threads s) i = Some t ->
+    tstep true ct i (classes s) (lock s) t = Some (cl', l', t', e) ->
+    inprog c t' -> inprog c t \/ is_enter c e = true.
+  Proof.
+    intros HI Hi H Hin. unfold tstep in H.
+    destruct (t_ph t) eqn:Hp;
+      try (repeat match type of H with
+                  | (if ?b then _ else _) = _ => destruct b
+                  | match ?x with _ => _ end = _ => destruct x
+                  end; inversion H; subst; clear H;
+           first [ left; left; apply (ret_inprog_back _ _ _ Hin)
+                 | left; unfold inprog in *; simpl in *; rewrite ?Hp; simpl;
+                   intuition (try discriminate; auto) ]; fail).
+    (* Enter *)
+    destruct (t_cur t) as [|p] eqn:Ec; inversion H; subst; clear H;
+      unfold inprog in *; simpl in *; rewrite ?Ec, ?Hp in *; simpl in *.
+    - destruct Hin as [Hr|[Hr _]]; [left; left; exact Hr|right; subst c; reflexivity].
+    - destruct Hin as [Hr|[_ Hr]]; [|discriminate].
+      destruct (Nat.eq_dec c (S p)) as [->|Hne]; [right; apply Nat.eqb_refl|left; left; lia].
+  Qed.
+
+  Lemma complete_back s i t cl' l' t' e c :
+    Inv ct s -> nth_error (threads s) i = Some t ->
+    tstep true ct i (classes s) (lock s) t = Some (cl', l', t', e) ->
+    complete ct c (getc c cl') -> complete ct c (getc c (classes s)) \/ inprog c t.
+  Proof.
+    intros HI Hi H Hc. pose proof HI as [HL [_ [HT _]]].
+    destruct (HT i t Hi) as [[_ [Hlt [_ Hf]]] _].
+    assert (Hw : forall k1, complete ct c (getc c (setc (t_cur t) k1 (classes s))) ->
+                 inbody (t_ph t) = true ->
+                 complete ct c (getc c (classes s)) \/ inprog c t).
+    { intros k1 Hk Hb. destruct (Nat.eq_dec c (t_cur t)) as [->|Hne].
+      - right. right. auto.
+      - left. rewrite getc_setc_other in Hk by auto. exact Hk. }
+    unfold tstep in H. destruct (t_ph t) eqn:Hp;
+      try (repeat match type of H with
+                  | (if ?b then _ else _) = _ => destruct b
+                  | match ?x with _ => _ end = _ => destruct x
+                  end; inversion H; subst; clear H; left; exact Hc).
+    - destruct (nth_error (c_decls (getd (t_cur t) ct)) k) as [[n x]|]; inversion H; subst; clear H;
+        [eapply Hw; eauto|left; exact Hc].
+    - inversion H; subst; clear H. eapply Hw; eauto.
+    - inversion H; subst; clear H. eapply Hw; eauto.
+    - inversion H; subst; clear H. eapply Hw; eauto.
+    - inversion H; subst; clear H. left. destruct Hf as [_ [Hw2 _]].
+      fold (unwrap (getc w (classes s))) in Hc. apply complete_setc_unwrap in Hc; auto. lia.
+  Qed.
+
+  Lemma other_holder s i t cl' l' t' e j d' :
+    Inv ct s -> nth_error (threads s) i = Some t ->
+    tstep true ct i (classes s) (lock s) t = Some (cl', l', t', e) ->
+    l' = Some (j, d') -> j <> i -> lock s = Some (j, d').
+  Proof.
+    intros HI Hi H Hl Hne. subst l'. unfold tstep in H.
+    assert (Hrel : 1 <= inner (t_ph t) -> release (lock s) = Some (j, d') -> False).
+    { intros Hin Hr. destruct (holder_facts ct s i t HI Hi Hin) as [Hlock _].
+      rewrite Hlock in Hr. destruct (depth t) as [|[|n]]; simpl in Hr; congruence. }
+    assert (Hacq : forall l2, acquire i (lock s) = Some l2 -> Some l2 = Some (j, d') -> False).
+    { intros l2 Ha He. unfold acquire in Ha.
+      destruct (lock s) as [[k dd]|]; [destruct (Nat.eqb_spec i k)|]; congruence. }
+    destruct (t_ph t) eqn:Hp;
+      try (repeat match type of H with
+                  | (if ?b then _ else _) = _ => destruct b
+                  | match ?x with _ => _ end = _ => destruct x
+                  end; inversion H; subst; congruence).
+    - destruct (acquire i (lock s)) as [l2|] eqn:Ea; [|discriminate].
+      exfalso. apply (Hacq l2 eq_refl). congruence.
+    - exfalso. apply Hrel; [simpl; lia|congruence].
+    - destruct (acquire i (lock s)) as [l2|] eqn:Ea; [|discriminate].
+      exfalso. apply (Hacq l2 eq_refl). congruence.
+    - exfalso. apply Hrel; [simpl; lia|congruence].
+  Qed.
+
+  Lemma inprog_started s i t c :
+    Inv ct s -> nth_error (threads s) i = Some t -> inprog c t -> started c s.
+  Proof.
+    intros HI Hi Hin. destruct (must_hold ct s i t HI Hi (inprog_depth c t Hin)) as [Hl _].
+    right. exists i, (depth t), t. auto.
+  Qed.
+
+  Lemma step_started_back s i s' e c :
+    Inv ct s -> step true ct i s = Some (s', e) ->
+    started c s' -> started c s \/ is_enter c e = true.
+  Proof.
+    intros HI H Hs'. unfold step in H.
+    destruct (nth_error (threads s) i) as [t|] eqn:Hi; [|discriminate].
+    destruct (tstep true ct i (classes s) (lock s) t) as [[[[cl' l'] t'] e']|] eqn:Ht; [|discriminate].
+    inversion H; subst; clear H. unfold started in Hs'. simpl in Hs'.
+    assert (Hil : i < length (threads s)) by (apply nth_error_Some; congruence).
+    destruct Hs' as [Hc|[j [d' [tj [Hl [Hj Hin]]]]]].
+    - destruct (complete_back s i t _ _ _ _ c HI Hi Ht Hc) as [Hc0|Hin]; [left; left; exact Hc0|].
+      left. eapply inprog_started; eauto.
+    - destruct (Nat.eq_dec j i) as [->|Hne].
+      + rewrite nth_error_set_nth_same in Hj by auto. inversion Hj; subst tj.
+        destruct (thread_back s i t _ _ _ _ c HI Hi Ht Hin) as [Hin0|He]; [|right; exact He].
+        left. eapply inprog_started; eauto.
+      + rewrite nth_error_set_nth_other in Hj by auto.
+        left. right. exists j, d', tj. split; [|auto].
+        apply (other_holder s i t cl' l' t' e j d' HI Hi Ht Hl Hne).
+  Qed.
+
+  Lemma run_exact c sched : forall s,
+    Inv ct s ->
+    let r := run true ct sched s in
+    count_enter c (snd r) = 0 -> started c (fst r) -> started c s.
+  Proof.
+    induction sched as [|i rest IH]; intros s HI; simpl; auto.
+    destruct (step true ct i s) as [[s1 e]|] eqn:Es; [|apply IH; auto].
+    specialize (IH s1 (step_inv ct wf s i s1 e HI Es)).
+    destruct (run true ct rest s1) as [s' tr']. simpl in *.
+    unfold count_enter in *. simpl. fold (is_enter c e).
+    destruct (is_enter c e) eqn:Ee; simpl; intros Hc Hs; [discriminate|].
+    destruct (step_started_back s i s1 e c HI Es (IH Hc Hs)) as [H|H]; [auto|congruence].
+  Qed.
+
+  Lemma inv_done_pub s i t :
+    Inv ct s -> nth_error (threads s) i = Some t -> t_ph t = Done ->
+    t_tgt t < length ct /\ pub (getc (t_tgt t) (classes s)) <> None.
+  Proof.
+    intros [_ [_ [HT _]]] Hi Hp. destruct (HT i t Hi) as [[_ [Hlt [_ H]]] _]. rewrite Hp in H.
+    split; [auto|]. destruct H as [_ [_ H]]. exact H.
+  Qed.
 End Safety.
 
 (* ---------------------------------------------------------------- main theorem *)
@@ -328,6 +485,28 @@ Proof.
   - intros i t. apply (inv_done ct (fst r)); auto.
   - intros c m. apply inv_pub; auto.
   - intro c. apply (run_once ct wf c sched _ HI0).
+Qed.
+
+(* the body of a class whose metadata is visible - in particular of the class used by any
+   finished thread - has been entered exactly once *)
+Theorem guarded_exactly_once ct ts sched :
+  wf_table ct -> fresh_threads ct ts ->
+  let r := run true ct sched (init_state ct ts) in
+  (forall c, c < length ct -> pub (getc c (classes (fst r))) <> None -> count_enter c (snd r) = 1) /\
+  (forall i t, nth_error (threads (fst r)) i = Some t -> t_ph t = Done ->
+               count_enter (t_tgt t) (snd r) = 1).
+Proof.
+  intros wf Hf r.
+  assert (HI0 := init_inv ct ts Hf).
+  assert (HI : Inv ct (fst r)) by (apply run_inv; auto).
+  assert (H1 : forall c, c < length ct -> pub (getc c (classes (fst r))) <> None -> count_enter c (snd r) = 1).
+  { intros c Hc Hp. assert (Hs := pub_started ct (fst r) c HI Hc Hp).
+    destruct (run_once ct wf c sched _ HI0) as [Hle _]. fold r in Hle.
+    destruct (count_enter c (snd r)) as [|[|n]] eqn:E; [|reflexivity|lia].
+    exfalso. apply (init_not_started ct ts c Hc).
+    apply (run_exact ct wf c sched _ HI0); auto. }
+  split; [exact H1|].
+  intros i t Hi Hp. destruct (inv_done_pub ct (fst r) i t HI Hi Hp) as [Hlt Hpub]. auto.
 Qed.
 
 (* no reachable state is a deadlock *)
